@@ -1,0 +1,52 @@
+//go:build verif
+
+// Package verifhook provides named yield points for the verification
+// harness. With the "verif" build tag, a function registered for a
+// name is called whenever the library passes the yield point of that
+// name.
+package verifhook
+
+import (
+	"sync"
+	"sync/atomic"
+)
+
+var (
+	mu     sync.RWMutex
+	hooks  = map[string]func(){}
+	active atomic.Int32
+)
+
+// Set registers fn for the named yield point, replacing the previous
+// function; a nil fn removes the registration.
+func Set(name string, fn func()) {
+	mu.Lock()
+	defer mu.Unlock()
+	if fn == nil {
+		delete(hooks, name)
+	} else {
+		hooks[name] = fn
+	}
+	active.Store(int32(len(hooks)))
+}
+
+// Clear removes every registration.
+func Clear() {
+	mu.Lock()
+	defer mu.Unlock()
+	hooks = map[string]func(){}
+	active.Store(0)
+}
+
+// At calls the function registered for the yield point, if any.
+func At(name string) {
+	if active.Load() == 0 {
+		return
+	}
+	mu.RLock()
+	fn := hooks[name]
+	mu.RUnlock()
+	if fn != nil {
+		fn()
+	}
+}
